@@ -5,4 +5,9 @@ NanPairsNone == {}
 AllOps == {"getitem", "subset", "subsample", "subset_pattern", "subsample_pattern", "reorder",
            "sort_alpha", "sort_list", "append", "concat", "from_partials", "permute",
            "inverse_permute", "copy", "dict", "matrices", "saveload", "to_df", "drop"}
+BootOps == {"boot_rdm", "boot_pattern", "boot_both"}
+BootCtx == {"boot_rdm", "boot_pattern", "subsample", "subsample_pattern", "subset_pattern", "sort_alpha",
+            "reorder", "concat", "copy"}
+BootAll == BootCtx \cup BootOps
+EveryOp == AllOps \cup BootOps
 =============================================================================
